@@ -1,6 +1,7 @@
 /-
   C03 — Tag iteration reproduces the specification's tag walk, zero-copy.
 -/
+import Mb2.Props.FnsCast
 import Mb2.Props.FnsGetters
 import Mb2.Props.FnsIter
 import Mb2.Props.FnsAlign
